@@ -39,6 +39,9 @@ RULE = ('a case = an initial Loop tree (depth <= 3, <= 3 children per node, coun
         'after a Loop, both loop= and keywords, NaN / str / None / numpy counts, rejected assignments of nodes the caller holds - '
         'followed by observations of the whole forest and further edits; check_spec S4: a call that raised left the forest '
         'exactly as observed before (except the recursive reverse / cleanup / flatten).  '
+        'Round 5: alias2 - a held child assigned to ANOTHER position of its own parent, the replaced sibling observed and '
+        'edited; every forest case that can fall under a known finding is generated twice, the twin (CCorrOnly) is exempt '
+        'from check_spec and judged by check_corr alone, so behaviour inside the known-finding classes is still compared.  '
         'Non-trivial = history with >= 2 effective (non-query, non-raising) edits and >= 1 duration query before an edit; '
         'distinct = distinct canonical JSON of the case.')
 TRUSTED = [
@@ -311,7 +314,48 @@ def gen_cases(rng, tier, ctx):
     cases.extend(gen_forest(rng, quick))
     cases.extend(gen_forest3(rng, quick))
     cases.extend(gen_round4(rng, quick))
+    cases.extend(gen_round5(rng, quick))
+    # round 5: twins.  The check drops a model-vs-implementation disagreement of a case whose specification fails under a known
+    # finding, so a change of behaviour INSIDE a known-finding class was invisible.  Every forest case that can reach one (the
+    # caller hands held nodes back, or holds a copy with an explicit parent) is generated a second time; when the run falls
+    # under a known finding the twin is judged by the correspondence alone (CCorrOnly), otherwise it is an empty case.
+    cases.extend(dict(c, twin=True, src=c.get('src', '?') + '+twin') for c in list(cases) if _can_be_known(c))
     return cases
+
+
+# round 5 (audit of the known-finding classes, hand mutation "x[i] = v skips the detaching of the replaced child when v is
+# already a child of x"): inside the aliased class no family held the node that the aliased insert REPLACES - a held child of
+# x is assigned to ANOTHER position of the same x (int / negative int / one-element slice / one-element extended slice), the
+# replaced sibling (held as well) is observed and edited, then the doubly listed node is edited through the program
+def gen_round5(rng, quick):
+    cases = []
+    lf = lambda d, r=1, v=1: L(['c', d, v], r)
+    M = lambda o: {'f': 'main', 'op': o}
+    Q = lambda sel=(): M({'op': 'qdur', 'sel': list(sel)})
+    AT = lambda k, o: {'f': 'at', 'k': k, 'op': o}
+    H = lambda sel: {'f': 'hold', 'sel': list(sel)}
+    T3 = N([N([lf('1'), lf('2', 2)], 2), lf('4', 3), N([lf('8')], 1)], 2)
+    edits = [{'op': 'append', 'sel': [], 't': lf('7'), 'kw': False}, {'op': 'setrep', 'sel': [], 'z': 4},
+             {'op': 'setwf', 'sel': [], 'w': ['c', '5', 1]}]
+    for par, n in (([], 3), ([0], 2)):
+        for i in range(n):
+            for j in range(n):
+                if i == j:
+                    continue
+                for how in (['int', j], ['int', j - n], ['slice', j, j + 1, None], ['slice', j, None, n]):
+                    for e, ed in enumerate(edits):
+                        if quick and (i + j + e) % 3 and not (how == ['int', j] and e == 0):
+                            continue
+                        cases.append({'kind': 'forest', 'src': 'alias2', 'init': T3, 'ops': (
+                            [Q()] + [H(par + [k]) for k in range(n)] +
+                            [{'f': 'ins', 'ks': [i], 'b': None, 'dst': par, 'how': how}, Q(), AT(j, ed), Q(),
+                             AT(j, {'op': 'qdur', 'sel': []}), M({'op': 'append', 'sel': par + [j], 't': lf('3'), 'kw': True}), Q()])})
+    return cases
+
+
+def _can_be_known(case):
+    return case.get('kind') == 'forest' and any(
+        o.get('f') == 'ins' or (o.get('f') == 'holdcopy' and o.get('np') == 2) for o in case['ops'])
 
 
 # round 2: the user keeps references to nodes; a node that dropped out of the program is edited afterwards
@@ -1076,7 +1120,7 @@ def run_forest(case):
                 if kind == 'ins' and out == 'KDone':
                     floating.difference_update(id(v) for v in vals)
                 if floating:
-                    flags['floating'] = True
+                    flags['floating'] = [k for k, m in enumerate(held) if id(m) in floating]
                 # round 4: aliasing / cycles are the CALLER's doing (known finding aliased-insert) only when they appear at a
                 # step where the caller handed held nodes back; an operation of the library that leaves one node listed by
                 # two nodes (a moved child still listed by the husk) is a violation and must not be masked
@@ -1251,10 +1295,12 @@ def g_fop(f):
 def to_coq(case, obs):
     if 'crash' in obs or 'hang' in obs:
         return 'CCrash'
+    if case.get('twin') and classify(case, obs) is None:
+        return '(CForest %s [])' % g_spec(obs['init'])
     if obs.get('forest'):
         steps = ['(%s, mkFS (mkS %s %s %s) %s)' % (g_fop(s['f']), s['out'], gopt(gbool, s['eq']), g_otree(s['tree']),
                                                    glist(lambda t: gopt(g_otree, t), s['held'])) for s in obs['steps']]
-        return '(CForest %s [%s])' % (g_spec(obs['init']), ';\n   '.join(steps))
+        return '(%s %s [%s])' % ('CCorrOnly' if case.get('twin') else 'CForest', g_spec(obs['init']), ';\n   '.join(steps))
     steps = ['(%s, mkS %s %s %s)' % (g_op(s['op']), s['out'], gopt(gbool, s['eq']), g_otree(s['tree']))
              for s in obs['steps']]
     return '(CHist %s [%s])' % (g_spec(obs['init']), ';\n   '.join(steps))
@@ -1293,21 +1339,27 @@ PARTIAL_OPS = ('reverse', 'cleanup', 'flatten')      # recursive operations: a f
 
 
 def first_failure(obs):
+    r = first_failure_at(obs)
+    return None if r is None else r[:2]
+
+
+def first_failure_at(obs):
+    """(step, why, where); where = 'cycle' | 's4' | 'main' | ('held', k)"""
     steps = obs.get('steps', [])
     for i, s in enumerate(steps):
         if s['out'] in ('KCycle', 'KRecCycle'):
-            return i, 'the structure is cyclic (a node became its own descendant)'
+            return i, 'the structure is cyclic (a node became its own descendant)', 'cycle'
         if i and s['out'] in REJECTING and _opname(s).split(':')[-1] not in PARTIAL_OPS:
             if s['tree'] != steps[i - 1]['tree'] or s.get('held', []) != steps[i - 1].get('held', []):
-                return i, 'S4 the call raised %s but changed the forest (state left behind by a rejected call)' % s['out']
+                return i, 'S4 the call raised %s but changed the forest (state left behind by a rejected call)' % s['out'], 's4'
         r = inv_tree(s['tree'])
         if r:
-            return i, r
+            return i, r, 'main'
         for k, t in enumerate(s.get('held', [])):
             if t is not None:
                 r = inv_tree(t)
                 if r:
-                    return i, 'held tree %d: %s' % (k, r)
+                    return i, 'held tree %d: %s' % (k, r), ('held', k)
     return None
 
 
@@ -1327,14 +1379,23 @@ def classify(case, obs):
     off the object state, which masked seed C09-5, where the library itself leaves a node listed twice);
     floating-copy-explicit-parent: a copy made with an explicit new_parent records a parent that does not list it.
     (failed-assignment-reparents was repaired in round 4: no classification any more.)"""
-    ff = first_failure(obs)
+    ff = first_failure_at(obs)
     if ff is None:
         return None
-    i, why = ff
+    i, why, where = ff
+    # round 5: narrowed.  A rejected call that leaves state behind (S4) is explained by neither finding: never filed.
+    if where == 's4':
+        return None
     upto = obs['steps'][:i + 1]
     if any(s.get('flags', {}).get('aliased') for s in upto):
         return 'aliased-insert'
-    if any(s.get('flags', {}).get('floating') or s.get('flags', {}).get('floating_edit') for s in upto):
+    # a floating copy that was not touched yet explains exactly one thing: the held copy itself records a parent that does
+    # not list it (its own location fails).  Only after the copy was edited / inserted / its base used (floating_edit) can the
+    # damage be anywhere (cached durations along the recorded parent's chain).
+    if any(s.get('flags', {}).get('floating_edit') for s in upto):
+        return 'floating-copy-explicit-parent'
+    fl = obs['steps'][i].get('flags', {}).get('floating')
+    if fl and isinstance(where, tuple) and (fl is True or where[1] in fl):
         return 'floating-copy-explicit-parent'
     return None
 
@@ -1344,6 +1405,8 @@ def _has_inner_wf(t):
 
 
 def py_spec(case, obs):
+    if case.get('twin'):         # judged by check_corr alone (see gen_cases)
+        return None
     ff = first_failure(obs)
     if ff is not None:
         return 'after step %d (%s): %s' % (ff[0], _opname(obs['steps'][ff[0]]), ff[1])
@@ -1351,7 +1414,7 @@ def py_spec(case, obs):
 
 
 def nontrivial(case, obs):
-    if 'steps' not in obs:
+    if 'steps' not in obs or case.get('twin'):
         return False
     edits, queried, q_before_edit = 0, False, False
     for s in obs['steps'][1:]:
@@ -1433,34 +1496,37 @@ def search_failing(ctx, broken):
 MANIFEST = {
     'level_text': 'Proof: heap model of the concrete Loop/Node object state with every public editing operation as a heap '
                   'transformer.  Proved for all heaps, nodes and arguments (unbounded, by induction; no axioms): every '
-                  'constructed tree satisfies the invariant (cached duration = recomputed, recorded position = position, '
-                  'parent = lister); one step and hence EVERY FINITE HISTORY over the 20-operation alphabet preserves it '
-                  '(C09_step / C09_history): append_child (incremental cache patch), __setitem__ with an int and with every '
-                  'slice form (renumbering loops, detaching of replaced children), setters, memoising queries, unroll, '
-                  'unroll_children, split_one_child, encapsulate, merge (incl. the emptying of the merged child, repair of '
-                  'round 3), cleanup (recursive), reverse_inplace, roll_constant_waveforms, copies, == - inside '
-                  'guard_C09_args: minimal_waveform_quanta >= 1; add_measurements (round 3); float-valued counts and '
-                  'rejected calls (round 4: 22 operations).  C09_failed_call_no_effect (round 4): x[idx] = v can only fail '
-                  'with IndexError, x[a:b:st] = vals with ValueError, a float count with ValueError, and then NOTHING was '
-                  'changed - also when the values are nodes the caller holds (Node.__setitem__ validates before it '
-                  're-parents: repair f8d6b25, former known finding failed-assignment-reparents); refuted for the '
-                  'recursive reverse_inplace (partial work is kept, Inv holds).  Loop.__eq__ reads '
-                  'structure/counts/waveforms/measurements only and answers true exactly for structurally equal subtrees.  '
-                  'Fuel: depth < heap size proved, the fueled primitives are total, histories over setters/queries need no '
-                  'assumption.  The round-2 forest statement is proved FALSE for held copies with an explicit parent '
-                  '(C09_forest_r2_refuted) and restated under guard_C09_forest.  NOT proved: absence of fuel/dangling '
-                  'outcomes for the structural operations (C09_history_total_statement), flatten_and_balance, operations on '
-                  'nodes that dropped out of the program (C09_forest_statement) - modelled and checked step by step against '
-                  'the code (check_corr) and against the invariant evaluated on the real objects of the program and of '
-                  'every held tree (check_spec).',
+                  'constructed tree satisfies the invariant Inv (cached duration = recomputed, recorded position = position, '
+                  'parent = lister); one step and hence every finite history over the 22-operation alphabet preserves it '
+                  '(C09_step / C09_history): append_child, __setitem__ with an int and with every slice form, setters '
+                  '(incl. float counts), memoising queries, unroll, unroll_children, split_one_child, encapsulate, merge, '
+                  'cleanup, reverse_inplace, roll_constant_waveforms, copies, ==, rejected calls - UNDER TWO HYPOTHESES: '
+                  'guard_C09_args (argument domain minimal_waveform_quanta >= 1) and run_ok (no step of the model run ends '
+                  'in the model artefacts "out of fuel" / "dangling id"; proved removable only for histories over setters and '
+                  'queries, C09_history_basic_total; otherwise tested on every generated case).  Inserted values are fresh '
+                  'trees or copies.  Round 5: C09_property states the three bookkeeping clauses end to end (after any such '
+                  'history every live node reports the recomputed duration, get_location/locate find the node itself along '
+                  'the path from the root - C09_location_roundtrip -, every listed child records lister and index); '
+                  'non-trivial non-vacuity witnesses (19-operation history, each failing-call kind).  add_measurements: per '
+                  'operation.  C09_failed_call_no_effect: a failing x[idx] = v / x[a:b:st] = vals (ValueError) / float count '
+                  'changes nothing, also for held values; refuted for the recursive reverse_inplace.  Loop.__eq__ reads '
+                  'structure/counts/waveforms/measurements only and answers true exactly for structurally equal subtrees '
+                  '(volatile counts: identity tag and multiplier).  The round-2 forest statement is proved FALSE for held '
+                  'copies with an explicit parent.  NOT proved (tested only, by check_corr against the model and by '
+                  'check_spec on the real objects): run_ok for structural operations (C09_history_total_statement), '
+                  'flatten_and_balance, every operation on nodes that dropped out of the program or are handed back by the '
+                  'caller (C09_forest_statement; its guard excludes ALL re-insertions of held nodes, more than the two known '
+                  'findings), the composition Inv -> check_spec through the observation function (clause by clause only: '
+                  'C09_reported_is_recomputed, C09_location_roundtrip, Inv links).  Not covered at all: make_compatible.',
     'level_note': 'Trusted: Coq kernel + vm_compute; the hand-written model (tied to /repo by correspondence only, no '
                   'translator); abstract waveforms; parent weak references as plain ids (objects kept alive); theorems '
-                  'assume inserted values are fresh or kept children (aliased / floating insertions are known '
-                  'findings, model follows the code); the table of expected exceptions for invalid-argument calls; fuel exhaustion / dangling ids excluded by hypothesis for the '
-                  'structural operations; Prop-level Inv and the boolean check_spec are the same clauses by inspection '
-                  'only (I1 linked by C09_reported_is_recomputed); for minimal_waveform_quanta <= 0 the model does not '
-                  'follow the code; make_compatible and shared measurement-list objects not modelled; harness '
-                  'observation and classification code.',
+                  'assume inserted values are fresh (aliased / floating insertions are known findings, the model follows the '
+                  'code there and - round 5 - twin cases keep the correspondence switched on inside both classes); the table '
+                  'of expected exceptions for invalid-argument calls (the model of a rejected call is "raises, no effect" by '
+                  'definition); check_spec shares only data helpers with the model (wf_dur, wf_eqb, mw_eqb, meas_eqb: "no '
+                  'measurements" = "empty list"); for minimal_waveform_quanta <= 0 the model does not follow the code '
+                  '(ZeroDivisionError / negative counts; not generated); shared measurement-list objects not modelled; '
+                  'harness observation and classification code.',
     'technique': 'Coq proof over a heap model + step-by-step correspondence check on operation histories and forests',
     'design_ref': 'DESIGN.md §5 C09, §4.5; notes/C09.md',
 }
